@@ -14,8 +14,6 @@ def run(ctx):
     for c in y:
         c["modules"] = [c["modules"][k] for k in sorted(c["modules"])] if isinstance(c["modules"], dict) else c["modules"]
     samples = [{"kind": c["kind"].replace("_", "-"), "features": sorted(c["features"])} for c in s]
-    if ctx.quick:
-        m = [c for i, c in enumerate(m) if i % 2 == ctx.seed % 2]
     negs = [ctx.vh("config-bufyaml", {"cases": y, "corrupt": True}), ctx.vh("config-samples", {"cases": samples[:5], "corrupt": True}),
             ctx.vh("config-migrate", {"cases": m[:1], "corrupt": True})]
     if not all(n["violations"] for n in negs):
